@@ -28,6 +28,7 @@ import AutosarVerif.Lemmas.Files
 import AutosarVerif.Lemmas.Merge
 import AutosarVerif.Lemmas.MergeUnion
 import AutosarVerif.Lemmas.MergeOrder
+import AutosarVerif.Lemmas.LoadMerge
 
 namespace AV.C09
 
@@ -117,5 +118,13 @@ theorem C09_paths_of_the_merge_are_the_union : type_of% @AV.W.MU.merge_paths_uni
 
 /-- `theorem twice : resXY.2 = none ∧ paths dupSpec resXY.1 [] = [[47, 110], [47, 110]] ∧ paths dupSpec kaX [] = [[47, 110]] ∧ paths dupSpec kbY [] = [[47, 110]] ∧ commonPaths dupSpec toyEnv kbY kaX.childElems [] = []` -/
 theorem C09_witness_same_path_different_kind : type_of% @AV.W.MU.OrdEx3.twice := @AV.W.MU.OrdEx3.twice
+
+
+/-! ### added at the end of the third session (proof pack LM): restated by name
+(`type_of%` keeps the statement identical to the lemma; the signature is quoted in the comment) -/
+
+/-- every element of the merged content comes from the model or from the new file (unconditional, error path included); with `C09_merge_loses_nothing` the model's elements are all kept
+`theorem mergeElement_ids_sub (fver : Nat → Option Nat) (newFile minVerB : Nat) (fuel : Nat) : ∀ (ha : Hdr) (ka : Items) (files : List Nat) (kb : Items) (x : Nat), x ∈ (mergeElement S V fver newFile minVerB fuel ha ka files kb).1.ids → x ∈ ka.ids ∨ x ∈ kb.ids` -/
+theorem C09_merge_invents_nothing : type_of% @AV.W.mergeElement_ids_sub := @AV.W.mergeElement_ids_sub
 
 end AV.C09
